@@ -246,7 +246,8 @@ def _ops():
     def iq_fn(L):
         q = np.array(Q2)
         q0 = q.copy()
-        v = direct_model.Iq(L.model("cylinder"), q, **dict(P["cyl"]))
+        L.model("cylinder")       # (library already in the cache)
+        v = direct_model.Iq("cylinder", q, **dict(P["cyl"]))   # Iq() takes a model NAME
         return "Iq:cylinder", v, ([] if q.tobytes() == q0.tobytes() else ["Iq() modified q"])
 
     def sv_new(L):
